@@ -18,7 +18,7 @@ sys.path.insert(0, os.path.dirname(os.path.abspath(__file__)))
 VERIF_ROOT = os.path.dirname(os.path.dirname(os.path.abspath(__file__)))
 from rustsrc import Source, Item, ExtractError, mask, match_close, loop_headers, split_args  # noqa: E402
 
-SECTION_KEYS = ('loopproof', 'proof_begin', 'assumed_from', 'props', 'requires', 'ensures', 'decreases', 'invariant', 'loopdec', 'proof', 'returns', 'attr',
+SECTION_KEYS = ('slow', 'loopproof', 'proof_begin', 'assumed_from', 'props', 'requires', 'ensures', 'decreases', 'invariant', 'loopdec', 'proof', 'returns', 'attr',
                 'derive+', 'nested', 'specialize', 'novac', 'external_body', 'rename', 'recommends', 'loopiter',
                 'opens_invariants', 'no_unwind')
 
@@ -45,6 +45,7 @@ class Contract:
         self.rename = None
         self.no_unwind = False
         self.assumed_from = None
+        self.slow = False       # verified in the thorough tier only (assumed, external_body, in the quick tier)
         self.props = None       # property ids this item's semantic clauses serve (None: unit default)
 
     def n_clauses(self):
@@ -263,6 +264,9 @@ class Unit:
                 elif first == 'novac':
                     c.novac = True
                     section = None
+                elif first == 'slow':
+                    c.slow = True
+                    section = None
                 elif first == 'no_unwind':
                     c.no_unwind = True
                     section = None
@@ -325,8 +329,9 @@ def clause_block(keyword, clauses, fnid, kind, indent='    '):
 
 
 class Emitter:
-    def __init__(self, unit, verif_root='/verif'):
+    def __init__(self, unit, verif_root='/verif', tier='thorough'):
         self.unit = unit
+        self.tier = tier
         self.verif_root = verif_root
         self.sources = {}
         self.rules = set()
@@ -462,6 +467,13 @@ class Emitter:
         return out
 
     def register_fn(self, fnid, contract, srcpath, line):
+        if contract.slow and self.tier == 'quick' and not contract.external_body:
+            contract.external_body = True
+            self.assumed.append('contract of %s is ASSUMED in the quick tier (its proof takes minutes); it is verified in the thorough tier' % fnid)
+            self.functions.append({'id': fnid, 'src': srcpath, 'line': line, 'requires': len(contract.requires),
+                                   'ensures': len(contract.ensures), 'invariants': 0, 'decreases': 0, 'external_body': True,
+                                   'novac': True, 'props': [], 'ensures_text': [], 'requires_text': [], 'slow_skipped': True})
+            return
         if contract.assumed_from and not contract.external_body:
             contract.external_body = True
             self.assumed.append('contract of %s assumed in this unit (external_body); it is proved in the unit that includes %s without `assumed`' % (fnid, contract.assumed_from))
